@@ -723,12 +723,16 @@ func VerifC25Backlog() {
 	go R.enqueue()
 	err := verifC25Feed(R, bytes) // a deadlock here = the reader loop waits for an accept
 	vAssert(verifC25EOF(err), "backlog: the reader loop goes through all open messages")
-	vAssert(len(R.pendingInboundStreamIdentifiers) == backlog, "backlog: exactly the backlog is queued")
+	vAssert(len(R.pendingInboundStreamIdentifiers) == backlog, "harness: the first opens fill the backlog exactly (the further ones are beyond it)")
 	for i := 0; i < n; i++ {
 		R.streamLock.Lock()
 		_, registered := R.streams[ids[i]]
 		R.streamLock.Unlock()
-		vAssert(registered == (i < backlog), "backlog: opens within the backlog are registered, the others are not")
+		if i < backlog {
+			vAssert(registered, "harness: an open within the backlog is registered")
+		} else {
+			vAssert(!registered, "backlog: an open beyond the backlog is not kept (neither queued nor registered)")
+		}
 	}
 
 	// what R answers (the real enqueue loop fills message buffers; the harness
@@ -762,7 +766,7 @@ func VerifC25Backlog() {
 	vAssert(verifC25EOF(err), "backlog: the opener's reader loop accepts the answers")
 	for i := 0; i < n; i++ {
 		if i < backlog {
-			vAssert(!isClosed(opened[i].remoteClosed), "backlog: an open within the backlog is not rejected")
+			vAssert(!isClosed(opened[i].remoteClosed), "harness: an open within the backlog is still pending (nobody accepted it), not rejected")
 		} else {
 			vAssert(isClosed(opened[i].remoteClosed) && !isClosed(opened[i].established), "backlog: an open beyond the backlog is rejected at the opener")
 		}
